@@ -18,7 +18,12 @@ type encItem struct {
 	pos token.Pos
 }
 
-// encList decodes a []*pb.FieldData literal: element i = intEnc(uint64(x)).
+// encList decodes a []*pb.FieldData list of fixed length: element i = intEnc(uint64(x)). The list is an
+// array cell seen whole through one slice of it; its elements are written either into the array before it is
+// sliced (a composite literal) or through that slice (a slice made with a constant length and filled
+// `l[i] = …`). Filled through the slice, nothing makes the writes one per position as a literal does, so
+// that is required here: every position of the array written exactly once, under a constant index, before
+// the list is used for anything else — otherwise the list is not decoded (and its rules fail).
 func encList(v ssa.Value) []encItem {
 	sl, ok := v.(*ssa.Slice)
 	if !ok {
@@ -33,26 +38,69 @@ func encList(v ssa.Value) []encItem {
 		it  encItem
 	}
 	var items []kv
+	var addrs []*ssa.IndexAddr
 	if refs := arr.Referrers(); refs != nil {
 		for _, rf := range *refs {
-			ia, ok := rf.(*ssa.IndexAddr)
-			if !ok {
+			if ia, ok := rf.(*ssa.IndexAddr); ok {
+				addrs = append(addrs, ia)
+			}
+		}
+	}
+	if at, isArr := derefUnder(arr.Type()).(*types.Array); isArr && sl.Referrers() != nil {
+		whole := sl.Low == nil && sl.Max == nil
+		if sl.High != nil {
+			h, isK := constInt(sl.High)
+			whole = whole && isK && h == at.Len()
+		}
+		var uses []ssa.Instruction // what the filled list is used for
+		var thru []*ssa.IndexAddr
+		for _, rf := range *sl.Referrers() {
+			switch x := rf.(type) {
+			case *ssa.DebugRef:
+			case *ssa.IndexAddr:
+				thru = append(thru, x)
+			default:
+				uses = append(uses, rf)
+			}
+		}
+		if len(thru) > 0 {
+			if !whole {
+				return nil
+			}
+			seen := map[int64]bool{}
+			for _, ia := range thru {
+				k, isK := constInt(ia.Index)
+				sts := directStores(ia)
+				if !isK || seen[k] || len(sts) != 1 {
+					return nil
+				}
+				seen[k] = true
+				for _, u := range uses {
+					if !instrDominates(sts[0], u) {
+						return nil
+					}
+				}
+			}
+			if int64(len(seen)) != at.Len() || len(addrs) > 0 {
+				return nil
+			}
+			addrs = thru
+		}
+	}
+	for _, ia := range addrs {
+		k, _ := constInt(ia.Index)
+		for _, st := range directStores(ia) {
+			c, ok := st.Val.(*ssa.Call)
+			if !ok || len(c.Call.Args) != 1 {
+				items = append(items, kv{k, encItem{sym: symOf(st.Val), raw: st.Val, pos: st.Pos()}})
 				continue
 			}
-			k, _ := constInt(ia.Index)
-			for _, st := range directStores(ia) {
-				c, ok := st.Val.(*ssa.Call)
-				if !ok || len(c.Call.Args) != 1 {
-					items = append(items, kv{k, encItem{sym: symOf(st.Val), raw: st.Val, pos: st.Pos()}})
-					continue
-				}
-				arg := c.Call.Args[0]
-				raw := arg
-				if cv, ok := arg.(*ssa.Convert); ok {
-					raw = cv.X
-				}
-				items = append(items, kv{k, encItem{sym: symOf(raw), raw: raw, pos: st.Pos()}})
+			arg := c.Call.Args[0]
+			raw := arg
+			if cv, ok := arg.(*ssa.Convert); ok {
+				raw = cv.X
 			}
+			items = append(items, kv{k, encItem{sym: symOf(raw), raw: raw, pos: st.Pos()}})
 		}
 	}
 	sort.Slice(items, func(i, j int) bool { return items[i].idx < items[j].idx })
